@@ -471,6 +471,11 @@ class Interp(object):
         it = self.eval(s.iter, fr)
         ordinal = fr.loop_ordinal
         fr.loop_ordinal += 1
+        if it.kind == 'tteinner':
+            # iteration over the keys of one inner dict of the event log: a set of (u, v, op) keys, order unspecified
+            from .loops import VBag
+            inner = it.g['Ev'][it.k]
+            it = VBag([EvK], lambda key: inner[key], lambda key: VOpaque(key, 'evkey'), note='events at one instant')
         items = self.static_items(it)
         if items is not None:
             try:
@@ -807,6 +812,18 @@ class Interp(object):
         v = self.eval(e.value, fr) if e.value is not None else VNone
         if fr.yields is None:
             raise Undecided('yield outside generator frame')
+        if '$ycnt' in fr.env:
+            # ghost multiset of yielded event tuples (u, v, op, t) and the time of the last yield
+            if not (v.kind == 'tuple' and len(v.items) == 4 and v.items[3].kind == 'int'):
+                raise Undecided('yield of a value that is not an event tuple')
+            key = to_evk(VTuple(v.items[:3]))
+            t = v.items[3].z
+            ycnt = fr.env['$ycnt'].z
+            yany, ylast = fr.env['$yany'].z, fr.env['$ylast'].z
+            self.ctx.oblige('C05.stream.chronological', z3.Implies(yany, ylast <= t), tags=('C05',), kind='yield')
+            fr.env['$ycnt'] = VOpaque(z3.Store(ycnt, t, z3.Store(ycnt[t], key, ycnt[t][key] + 1)), 'ghost')
+            fr.env['$yany'], fr.env['$ylast'] = VBool(True), VInt(t)
+            return VNone
         fr.yields.append(v)
         return VNone
 
